@@ -3,7 +3,12 @@ package props
 import (
 	"fmt"
 	"go/ast"
+	"go/token"
 	"go/types"
+	"math/big"
+	"strings"
+
+	"golang.org/x/tools/go/ssa"
 
 	"gocv/smt"
 	"gocv/spec"
@@ -99,4 +104,68 @@ func init() {
 			return units
 		},
 	})
+}
+
+// valueHook replaces calls of the constant-arithmetic functions of expreval
+// by their contracts (property C10): the contract is an equation
+// "vext(result, w) == RHS" (or "result == RHS" for Ltu), so the result is
+// constructed from the specification term directly.
+func (c *Ctx) valueHook(p *sx.Path, fn *ssa.Function, args []sx.Val, site ssa.Instruction) (sx.Val, bool) {
+	name := sx.FuncName(fn)
+	const pre = "exprtransform/internal/expreval."
+	if !strings.HasPrefix(name, pre) {
+		return nil, false
+	}
+	switch strings.TrimPrefix(name, pre) {
+	case "Add", "Lsh", "Rsh", "Mul", "Div", "Nand", "Ltu":
+	default:
+		return nil, false
+	}
+	ct, ok := c.Contracts[name]
+	if !ok {
+		return nil, false
+	}
+	wv, ok := sx.ConstInt(args[2])
+	if !ok {
+		return nil, false
+	}
+	var pkg *types.Package
+	if fn.Pkg != nil {
+		pkg = fn.Pkg.Pkg
+	}
+	ev := c.NewEval(p, pkg)
+	for i, prm := range fn.Params {
+		ev.Vars[prm.Name()] = spec.TV{V: args[i], T: prm.Type()}
+	}
+	ev.Vars["w"] = spec.TV{V: big.NewInt(wv)}
+	for _, e := range ct.Ensures {
+		be, ok := e.Expr.(*ast.BinaryExpr)
+		if !ok || be.Op != token.EQL {
+			continue
+		}
+		if id, ok := be.X.(*ast.Ident); ok && id.Name == "result" {
+			return ev.Eval(be.Y).V, true
+		}
+		call, ok := be.X.(*ast.CallExpr)
+		if !ok {
+			continue
+		}
+		if id, ok := call.Fun.(*ast.Ident); !ok || id.Name != "vext" {
+			continue
+		}
+		rhs := ev.Term(ev.Eval(be.Y))
+		if rhs.S.W != int(8*wv) {
+			return nil, false
+		}
+		var els []sx.Val
+		for i := 0; i < int(wv); i++ {
+			els = append(els, smt.Extract(rhs, 8*i+7, 8*i))
+		}
+		var sl sx.Val = sx.Slice{Off: smt.BVU(0, 64), Len: smt.BVU(0, 64), Cap: smt.BVU(0, 64)}
+		if wv > 0 {
+			sl = p.NewSlice(types.Typ[types.Uint8], els)
+		}
+		return &sx.Struct{F: []sx.Val{sl}}, true
+	}
+	return nil, false
 }
